@@ -38,7 +38,11 @@ Theorem C01_pc_autoinc_partial : forall rel,
 Proof. exact pc_autoinc_fields. Qed.
 Print Assumptions C01_pc_autoinc_partial.
 
-(* accepted exactly when legal: a table mnemonic with operands assembles iff the Spec gives the
+(* Reading of [OAcc n]: the token acN where a floating operand / accumulator is expected, or where
+   no user symbol of that name is defined.  A *defined* symbol named acN written in any other
+   position is an ordinary expression and is represented as such (token_acc in Spec/PDP11.v; C01_acc_named_symbol):
+   "ac0 = 5 / mov ac0, r1" is [ORel 5; OReg 1], not [OAcc 0; OReg 1].
+   accepted exactly when legal: a table mnemonic with operands assembles iff the Spec gives the
    line a meaning (operand classes of the operation, registers 0..7, accumulators 0..5 resp. 0..3,
    16-bit values, inline numbers within the field, branch reach and parity) *)
 Theorem C01_accepted_iff_legal : forall m pat ops addr,
@@ -48,8 +52,7 @@ Proof. exact accepted_iff_legal. Qed.
 Print Assumptions C01_accepted_iff_legal.
 
 (* ... and when it is not accepted the outcome is an error diagnostic, never a Python exception *)
-Theorem C01_rejected_is_error : forall m pat ops addr,
-  lookup_pat m opcode_table = Some pat ->
+Theorem C01_rejected_is_error : forall m ops addr,
   match compile_insn m ops addr with Ok _ | Err _ => True | _ => False end.
 Proof. exact compile_no_crash. Qed.
 Print Assumptions C01_rejected_is_error.
@@ -72,6 +75,18 @@ Print Assumptions C01_field_range_reg.
 Theorem C01_field_range_word : forall x w, int16 x = Ok w -> -65536 < x < 65536 /\ w = x mod 65536.
 Proof. exact field_range_word. Qed.
 Print Assumptions C01_field_range_word.
+
+(* the token acN by operand class: accumulator (shadowing a symbol of that name) in floating positions,
+   the ordinary symbol everywhere else -- same meaning and same words as the bare expression *)
+Theorem C01_acc_named_symbol : forall c n t addr k,
+  sem_operand c (token_acc c n (Some t)) addr k =
+  match c with
+  | CFpRM => if (0 <=? n) && (n <=? 5) then Some (SAcc n) else None
+  | CAcc => if (0 <=? n) && (n <=? 3) then Some (SAcc n) else None
+  | _ => sem_operand c (ORel t) addr k
+  end.
+Proof. exact acc_named_symbol. Qed.
+Print Assumptions C01_acc_named_symbol.
 
 (* synonyms: same canonical operation => same words, for all operands and addresses *)
 Theorem C01_synonyms : forall m m' pat pat' ops addr,
@@ -122,5 +137,19 @@ Proof. vm_compute. split; reflexivity. Qed.
 Example C01_ex_acc_rejected : compile_insn "ldf" [ORegDef 0; OAcc 4] 512 = Err ["invalid-addressing"]
   /\ expect "ldf" [ORegDef 0; OAcc 4] 512 = None.
 Proof. vm_compute. split; reflexivity. Qed.
+Example C01_ex_acc_symbol :
+  (* "ac0 = 5 / mov ac0, r1": relative mode to the symbol; the real code emits c1 1d 01 fe *)
+  compile_insn "mov" [token_acc CRM 0 (Some 5); OReg 1] 512 = Ok [7617; 65025]
+  /\ expect "mov" [token_acc CRM 0 (Some 5); OReg 1] 512 = Some ("mov", [SRel 5; SReg 1])
+  (* no such symbol: refused *)
+  /\ compile_insn "mov" [token_acc CRM 0 None; OReg 1] 512 = Err ["undefined-symbol"]
+  /\ expect "mov" [token_acc CRM 0 None; OReg 1] 512 = None
+  (* in a floating position the accumulator wins even if a symbol ac1 exists *)
+  /\ compile_insn "ldf" [token_acc CFpRM 1 (Some 5); token_acc CAcc 0 None] 512 = Ok [62721]
+  /\ expect "ldf" [token_acc CFpRM 1 (Some 5); token_acc CAcc 0 None] 512 = Some ("ldf", [SAcc 1; SAcc 0])
+  (* branch target / inline number named acN *)
+  /\ compile_insn "br" [token_acc CBr 3 (Some 520)] 512 = Ok [259]
+  /\ compile_insn "emt" [token_acc (CNum 8 true) 5 (Some 7)] 512 = Ok [34823].
+Proof. vm_compute. repeat split; reflexivity. Qed.
 Example C01_ex_syn : plain_syn "bcc" "bhis" /\ plain_syn "callr" "jmp" /\ plain_syn "stcdl" "stcfi".
 Proof. repeat split; eexists; split; vm_compute; reflexivity. Qed.
